@@ -5,6 +5,7 @@ state = structural fingerprint of the whole model object graph (E4) + its serial
 audit and behavioural independence tests for data objects, caller frames and handed-out frames.
 """
 import copy
+import itertools
 import json
 
 import numpy as np
@@ -317,6 +318,38 @@ def run_frames(case):
                         [fr["observed"], fr["temperature"]]))
         entries.append(("caltrack.HourlyReportingData.from_series", lambda m, t: CR.from_series(m, t, is_electricity_data=True),
                         [fr["observed"], fr["temperature"]]))
+    # every from_series entry point is driven with the full product of argument FORMS: meter as Series / one-column frame
+    # (column already named 'observed' or not) x temperature as Series / one-column frame (named 'temperature' or not) x
+    # temperature index in the meter's zone / in UTC; frame constructors additionally with a 'datetime' column, a microsecond
+    # index and an extra column
+    expanded = []
+    for name, ctor, args in entries:
+        if "from_series" in name and len(args) == 2:
+            m0, t0 = args
+            m_forms = [("mS", m0), ("mF:observed", m0.to_frame("observed")), ("mF:value", m0.to_frame("value"))]
+            t_forms = []
+            for zlab, tt in (("tz_same", t0), ("tz_utc", t0.tz_convert("UTC"))):
+                t_forms += [(f"tS:{zlab}", tt), (f"tF:temperature:{zlab}", tt.to_frame("temperature")), (f"tF:temp:{zlab}", tt.to_frame("temp"))]
+            for (ml, mv), (tl, tv) in itertools.product(m_forms, t_forms):
+                expanded.append((f"{name}[{ml},{tl}]", ctor, [mv, tv]))
+        elif len(args) == 1 and isinstance(args[0], pd.DataFrame):
+            f0 = args[0]
+            expanded.append((name, ctor, [f0]))
+            fx = f0.copy()
+            fx["note"] = 1.0
+            expanded.append((name + "[extra column]", ctor, [fx]))
+            fu = f0.copy()
+            try:
+                fu.index = fu.index.as_unit("us")
+                expanded.append((name + "[us index]", ctor, [fu]))
+            except Exception:
+                pass
+            if "caltrack" not in name:
+                fd = f0.reset_index(names="datetime")
+                expanded.append((name + "[datetime column]", ctor, [fd]))
+        else:
+            expanded.append((name, ctor, args))
+    entries = expanded
     outcomes = []
     for name, ctor, args in entries:
         args = [a.copy(deep=True) for a in args]
